@@ -97,6 +97,17 @@ def judge_score(d):
                 out.append(viol(f"C07/range:{name}", f"{name} {tag}: score {sc}"))
             if d["pair"] == "identical" and not abs(sc - 1) <= 1e-4:
                 out.append(viol(f"C07/identical-not-1:{name}", f"{name} {tag}: score {sc:.6f} for identical images"))
+            # the same model object asked again after a call with another orientation (per-call state must not leak)
+            q2 = Rotation.from_rotvec(d["rot2"]["rv"]).as_quat().astype(np.float32) if "rot2" in d else quat
+            s_other = float(model.score(sub, q2, pos))
+            a2, b2 = reference_images(model, tmpl, sub, mask, d["cutoff"], q2)
+            if float(np.abs(a2).max()) > 1e-9 and float(np.abs(b2).max()) > 1e-9:
+                w2 = ref.pearson(a2, b2) if name == "ZNCC" else ref.cosine(a2, b2)
+                if not abs(s_other - w2) <= 2e-4:
+                    out.append(viol(f"C07/score-vs-reference:{name}", f"{name} {tag}: second call with another orientation: score {s_other:.6f}, reference {w2:.6f}"))
+            s_again = float(model.score(sub, quat, pos))
+            if not abs(s_again - sc) <= 1e-6:
+                out.append(viol(f"C07/repeat-call-differs:{name}", f"{name} {tag}: the same score call gave {sc:.6f} and then {s_again:.6f} after a call with another orientation"))
             # gain invariance
             sg = float(model.score((sub * d["gain"]).astype(np.float32), quat, pos))
             if not abs(sg - sc) <= 2e-4:
@@ -212,7 +223,7 @@ def score_cases(draw):
             "noise": draw(st.sampled_from([0.05, 0.3, 1.0, 3.0])),
             "mask": draw(st.sampled_from(["none", "none", "binary", "soft"])), "mask_r": draw(st.sampled_from([0.6, 0.8, 1.0])),
             "cutoff": draw(st.sampled_from([None, None, 0.2, 0.45, 0.7])),
-            "tilt": tilt, "tilt_as": tilt_as, "rot": draw(gen.rotvecs()),
+            "tilt": tilt, "tilt_as": tilt_as, "rot": draw(gen.rotvecs()), "rot2": draw(gen.rotvecs()),
             "gain": draw(st.sampled_from([1e-3, 0.37, 2.0, 55.0, 1e3])), "offset": draw(st.sampled_from([-5.0, 0.25, 10.0, 100.0])),
             "lmax": draw(st.sampled_from([1.0, 2.0, 1.5, 2.7]))}
 
